@@ -49,6 +49,7 @@ import (
 	"strings"
 
 	"github.com/gofiber/fiber/v3/middleware/session"
+	"github.com/gofiber/fiber/v3/verifrt"
 
 	"verifmc/core"
 )
@@ -465,6 +466,7 @@ func workerSetup() {
 }
 
 func main() {
+	verifrt.NoDaemonsOutsideRun = true // the storage's janitor only runs inside executions (concurrent part)
 	r := core.Start("C15")
 	if dbg := os.Getenv("C15_DEBUG"); dbg != "" {
 		debugHistory(dbg)
